@@ -197,7 +197,8 @@ def _run_scenario(sc):
 
 def cases(size, seed, limit):
     rng = random.Random(seed)
-    terms = mirror.enum_terms(size)
+    # same functor name with two arities, and a Python string constant spelled like an atom: must never unify
+    terms = mirror.enum_terms(size, funs=(('f', 1), ('g', 2), ('f', 2)), consts=(1, 'a'))
     small = mirror.enum_terms(min(size, 2))
     pres = [[]]
     for v in range(3):
@@ -253,7 +254,7 @@ def main():
                 break
     print(json.dumps(dict(evaluations=n, distinct_nontrivial=len(nontriv), skipped=skipped, failures=fails,
                           samples=samples,
-                          rule='all term pairs up to %d nodes over 2 atoms, f/1, g/2, 3 variables, 1 constant, shuffled '
+                          rule='all term pairs up to %d nodes over 2 atoms, f/1, f/2, g/2, 3 variables, constants 1 and \'a\' (a str spelled like an atom), shuffled '
                                'by seed, under 0-3 earlier active unifications; kinds unify/unify_arrays/get_value; '
                                'abandonment exhaust/close/drop/throw; non-trivial = compound argument or non-empty '
                                'pre-store' % size)))
